@@ -234,6 +234,11 @@ func (d *Data) handleBlocks(ctx *datastore.VersionedCtx, w http.ResponseWriter, 
 		}
 		timedLog.Infof("HTTP GET blocks at size %s, offset %s (%s)", parts[4], parts[5], r.URL)
 	} else {
+		// Only a POST stores blocks: other verbs are not checked against committed versions.
+		if strings.ToLower(r.Method) != "post" {
+			server.BadRequest(w, r, "DVID does not accept the %s action on the 'blocks' endpoint", r.Method)
+			return
+		}
 		var indexing bool
 		if queryStrings.Get("noindexing") != "true" {
 			indexing = true
@@ -249,6 +254,11 @@ func (d *Data) handleIngest(ctx *datastore.VersionedCtx, w http.ResponseWriter, 
 	// POST <api URL>/node/<UUID>/<data name>/ingest-supervoxels[?scale=...]
 	timedLog := dvid.NewTimeLog()
 
+	// Only a POST stores blocks: other verbs are not checked against committed versions.
+	if strings.ToLower(r.Method) != "post" {
+		server.BadRequest(w, r, "DVID does not accept the %s action on the 'ingest-supervoxels' endpoint", r.Method)
+		return
+	}
 	queryStrings := r.URL.Query()
 	scale, err := getScale(queryStrings)
 	if err != nil {
